@@ -16,6 +16,7 @@ A schedule is recorded as segments ``[task, n_yield_points]`` and can be replaye
 from __future__ import annotations
 
 import _thread
+import os
 import random
 import sys
 import threading
@@ -26,7 +27,7 @@ from .common import LIB_ROOT
 M64 = (1 << 64) - 1
 
 KIND_CODE = {'L': 1, 'F': 2, 'R': 3, 'Cg': 4, 'Ch': 5, 'Cm': 6, 'Cs': 7, 'Cx': 8, 'O': 9,
-             'D+': 10, 'D-': 11, 'E': 12, 'H': 13, 'B': 14}
+             'D+': 10, 'D-': 11, 'E': 12, 'H': 13, 'B': 14, 'X': 15}
 HOT = frozenset(('Cm', 'Cs', 'F', 'D+', 'H'))
 _HOTLINES = None
 
@@ -37,6 +38,30 @@ def hotlines():
         from .hotlines import hot_lines
         _HOTLINES = hot_lines(LIB_ROOT)
     return _HOTLINES
+
+
+def shared_roots():
+    """Mutable containers bound at module level or class level of the library: process-shared state.
+
+    Returns (names, containers).  Used only to *place* pre-emptions (a frame that names such a
+    container, or receives one of its elements as an argument, is about to touch shared state)."""
+    names, roots = set(), []
+    for mod in list(sys.modules.values()):
+        f = getattr(mod, '__file__', None)
+        if not f or not f.startswith(LIB_ROOT) or (os.sep + 'tests' + os.sep) in f:
+            continue
+        for k, v in list(vars(mod).items()):
+            if k.startswith('__'):
+                continue
+            if isinstance(v, (dict, list, set)):
+                names.add(k)
+                roots.append(v)
+            elif isinstance(v, type) and getattr(v, '__module__', None) == mod.__name__:
+                for ck, cv in list(vars(v).items()):
+                    if not ck.startswith('__') and isinstance(cv, (dict, list, set)):
+                        names.add(ck)
+                        roots.append(cv)
+    return names, roots
 
 
 class AbortInjected(BaseException):
@@ -59,6 +84,16 @@ class Scheduler(object):
         self.budget = int(self.spec.get('budget', 8))
         self.bias = float(self.spec.get('bias', 0.0))
         self.probe = float(self.spec.get('probe', 0.0))
+        self.targets = set(self.spec.get('targets', ()))     # ordinals of hot points to pre-empt at
+        self.hot_ordinal = 0
+        self.alias = bool(self.spec.get('alias', False)) and trace and ntasks > 1
+        self.root_names, self.roots = (shared_roots() if self.alias else (set(), []))
+        self.shared_ids = set()
+        self.shared_sig = None
+        self.hot_frames = set()
+        self.code_hot = {}
+        self.alias_hot_points = 0
+        self.call_done = [False] * ntasks
         self.return_to = None
         self.probe_runner = None
         self.hot_pending = [0] * ntasks
@@ -162,7 +197,8 @@ class Scheduler(object):
                     else:
                         self._close_segment(tid)
             return
-        if self.return_to is not None and tid == self.probe_runner and kind == 'O':
+        if self.return_to is not None and tid == self.probe_runner and kind == 'O' \
+                and self.call_done[tid]:
             # atomicity probe: the task that was let in has finished one whole operation
             back, self.return_to, self.probe_runner = self.return_to, None, None
             if back in self.runnable and back != tid:
@@ -171,6 +207,18 @@ class Scheduler(object):
         do = False
         hot = False
         self.countdown -= 1
+        if kind in HOT and self.targets:
+            # PCT-style: pre-empt at pre-drawn ordinals of the hot points, spread over the whole run,
+            # always as an atomicity probe (the task let in completes one call, then control returns)
+            self.hot_ordinal += 1
+            if self.hot_ordinal in self.targets and len(self.runnable) > 1 and self.return_to is None:
+                nxt = self._pick_next(tid)
+                if nxt is not None and nxt != tid:
+                    self.return_to, self.probe_runner = tid, nxt
+                    self.call_done[nxt] = False
+                    self.probe_switches += 1
+                    self._switch(tid, nxt)
+                    return
         if self.budget > 0:
             if self.countdown <= 0:
                 do = True
@@ -184,6 +232,7 @@ class Scheduler(object):
                 if hot and self.probe > 0.0 and self.return_to is None \
                         and self.rng.random() < self.probe:
                     self.return_to, self.probe_runner = tid, nxt
+                    self.call_done[nxt] = False
                     self.probe_switches += 1
                 self._switch(tid, nxt)
         elif do:
@@ -231,6 +280,41 @@ class Scheduler(object):
         self.sems[to].release()
         self.sems[frm].acquire()
 
+    def _refresh_shared(self):
+        sig = tuple(len(r) for r in self.roots)
+        if sig == self.shared_sig:
+            return
+        self.shared_sig = sig
+        ids = set()
+        for r in self.roots:
+            ids.add(id(r))
+            try:
+                vals = list(r.values()) if isinstance(r, dict) else list(r)
+            except RuntimeError:
+                continue
+            for v in vals[:512]:
+                ids.add(id(v))
+                if isinstance(v, (list, dict, set)) and len(v) <= 64:
+                    for w in (v.values() if isinstance(v, dict) else v):
+                        ids.add(id(w))
+        self.shared_ids = ids
+
+    def _frame_is_hot(self, frame):
+        code = frame.f_code
+        ch = self.code_hot.get(code)
+        if ch is None:
+            ch = self.code_hot[code] = bool(self.root_names.intersection(code.co_names))
+        if ch:
+            return True
+        if code.co_argcount or code.co_kwonlyargcount:
+            self._refresh_shared()
+            ids = self.shared_ids
+            if ids:
+                for v in frame.f_locals.values():
+                    if id(v) in ids:
+                        return True
+        return False
+
     def note_conflict(self, tid, kind, key):
         self.conflict.append((tid, kind, key))
 
@@ -238,6 +322,7 @@ class Scheduler(object):
     def _make_tracer(self, tid):
         sched = self
         hot_files = hotlines() if self.trace else {}
+        alias = self.alias
 
         def local(frame, event, arg):
             if event == 'line':
@@ -254,15 +339,21 @@ class Scheduler(object):
                     sched.hot_pending[tid] = pend - 1
                     sched.hot_points += 1
                     sched.yield_point(tid, 'H', frame.f_lineno)
+                elif alias and id(frame) in sched.hot_frames:
+                    sched.alias_hot_points += 1
+                    sched.yield_point(tid, 'H', frame.f_lineno)
                 else:
                     sched.yield_point(tid, 'L', frame.f_lineno)
                 if hot_files:
                     hs = hot_files.get(frame.f_code.co_filename)
                     if hs is not None and frame.f_lineno in hs:
                         sched.hot_pending[tid] = 2
-            elif event == 'return' and frame.f_code.co_name == 'dea3':
-                sched.in_dea3[tid] -= 1
-                sched.yield_point(tid, 'D-')
+            elif event == 'return':
+                if alias:
+                    sched.hot_frames.discard(id(frame))
+                if frame.f_code.co_name == 'dea3':
+                    sched.in_dea3[tid] -= 1
+                    sched.yield_point(tid, 'D-')
             return local
 
         def glob(frame, event, arg):
@@ -272,7 +363,18 @@ class Scheduler(object):
                     if code.co_name == 'dea3':
                         sched.in_dea3[tid] += 1
                         sched.yield_point(tid, 'D+')
+                    if alias and sched._frame_is_hot(frame):
+                        sched.hot_frames.add(id(frame))
                     return local
+                # a Python-level function of numpy / scipy / the caller entered straight from a
+                # library line: a pre-emption point in the MIDDLE of that source line
+                back = frame.f_back
+                if back is not None and back.f_code.co_filename.startswith(LIB_ROOT):
+                    if sched.hot_pending[tid] or (alias and id(back) in sched.hot_frames):
+                        sched.alias_hot_points += 1
+                        sched.yield_point(tid, 'H', back.f_lineno)
+                    else:
+                        sched.yield_point(tid, 'X', back.f_lineno)
             return None
         return glob
 
@@ -353,6 +455,7 @@ class Scheduler(object):
             'probe_switch_in_dea3': self.probe_switch_in_dea3,
             'probe_switch_in_miss': self.probe_switch_in_miss,
             'hot_points': self.hot_points, 'probe_switches': self.probe_switches,
-            'lock_blocks': self.lock_blocks,
+            'lock_blocks': self.lock_blocks, 'alias_hot_points': self.alias_hot_points,
+            'alias_watch': self.alias,
             'abort_fired': list(self.abort_fired), 'errors': list(self.errors),
         }
